@@ -1,9 +1,11 @@
 package main
 
 import (
+	"bytes"
 	"context"
 	"encoding/binary"
 	"fmt"
+	"github.com/fullstorydev/grpchan"
 	"io"
 	"net/http"
 	"net/http/httptest"
@@ -407,6 +409,110 @@ func init() {
 			checked(o, "http_stalled_reply_then_cancel", id, ok, d)
 		}
 		raw.Close()
+
+		// 5b. the same with a LARGE response message (100 KB) stalling part-way through its body, and receives
+		// made again once the stream has wound down: each of them returns the status, none a bare end of stream
+		{
+			big, _ := proto.Marshal(&hx.Msg{Count: 2, Payload: bytes.Repeat([]byte{0x5a}, 100_000)})
+			var breply []byte
+			binary.BigEndian.PutUint32(pre, uint32(len(big)))
+			breply = append(append(breply, pre...), big...)
+			var bstall int32
+			braw := httptest.NewServer(http.HandlerFunc(func(w http.ResponseWriter, rq *http.Request) {
+				io.Copy(io.Discard, rq.Body)
+				w.Header().Set("Content-Type", httpgrpc.StreamRpcContentType_V1)
+				w.WriteHeader(200)
+				w.Write(breply[:int(atomic.LoadInt32(&bstall))])
+				w.(http.Flusher).Flush()
+				<-rq.Context().Done()
+			}))
+			bu, _ := url.Parse(braw.URL)
+			bc := &httpgrpc.Channel{Transport: &http.Transport{}, BaseURL: bu}
+			for _, k := range []int{4, 5000, 70_000, len(breply) - 1} {
+				for _, how := range []string{"cancel", "deadline"} {
+					atomic.StoreInt32(&bstall, int32(k))
+					var ctx context.Context
+					var cancel context.CancelFunc
+					want := codes.Canceled
+					if how == "cancel" {
+						ctx, cancel = context.WithCancel(context.Background())
+						time.AfterFunc(40*time.Millisecond, cancel)
+					} else {
+						ctx, cancel = context.WithTimeout(context.Background(), 40*time.Millisecond)
+						want = codes.DeadlineExceeded
+					}
+					cs, err := bc.NewStream(ctx, hx.StreamDescOf("BD"), "/verif.Svc/BD")
+					var res []string
+					ok := err == nil
+					if ok {
+						cs.CloseSend()
+						for j := 0; j < 4; j++ {
+							e := cs.RecvMsg(&hx.Msg{})
+							res = append(res, fmt.Sprint(e))
+							if !isCtxStatus(e, want) {
+								ok = false
+							}
+							time.Sleep(40 * time.Millisecond)
+						}
+						runtime.KeepAlive(cs)
+					}
+					cancel()
+					id++
+					d := map[string]interface{}{"transport": "httpgrpc", "response_message_bytes": len(big), "reply_stalls_after_bytes": k, "context_ends_by": how, "receives": res}
+					if !ok {
+						o.Violate("after the context ended while a large response message was arriving, a receive returned something other than the context's status", d, res, want.String())
+					}
+					checked(o, "http_stalled_large_message_"+how, id, ok, d)
+				}
+			}
+			braw.Close()
+		}
+
+		// 5c. a stream client interceptor (grpchan.InterceptClientConn) is the caller of the channel below it: the
+		// context IT passes decides the call: when that context's deadline passes or it is cancelled, pending
+		// receives return the status and the handler's context ends
+		for _, t := range bothTransports(&hx.Svc{Stream: func(kind string, ss grpc.ServerStream) error {
+			<-ss.Context().Done()
+			return status.FromContextError(ss.Context().Err()).Err()
+		}}) {
+			for _, how := range []string{"deadline", "cancel"} {
+				var keep context.CancelFunc
+				ich := grpchan.InterceptClientConn(t.ch, nil, func(ctx context.Context, desc *grpc.StreamDesc, cc *grpc.ClientConn, method string, streamer grpc.Streamer, opts ...grpc.CallOption) (grpc.ClientStream, error) {
+					var c2 context.Context
+					if how == "deadline" {
+						c2, keep = context.WithTimeout(ctx, 120*time.Millisecond)
+					} else {
+						c2, keep = context.WithCancel(ctx)
+						time.AfterFunc(120*time.Millisecond, keep)
+					}
+					return streamer(c2, desc, cc, method, opts...)
+				})
+				outer, outerCancel := context.WithTimeout(context.Background(), 3*time.Second)
+				want := codes.DeadlineExceeded
+				if how == "cancel" {
+					want = codes.Canceled
+				}
+				start := time.Now()
+				cs, err := ich.NewStream(outer, hx.StreamDescOf("BD"), "/verif.Svc/BD")
+				var e error = err
+				if err == nil {
+					e = cs.RecvMsg(&hx.Msg{})
+				}
+				took := time.Since(start)
+				outerCancel()
+				if keep != nil {
+					keep()
+				}
+				ok := isCtxStatus(e, want) && took < 1500*time.Millisecond
+				id++
+				d := map[string]interface{}{"transport": t.name, "kind": "BD through grpchan.InterceptClientConn", "interceptor_context_ends_by": how, "after_ms": 120, "outer_context_ms": 3000, "receive": fmt.Sprint(e), "took_ms": took.Milliseconds()}
+				if !ok {
+					o.Violate("a receive did not return the status of the context the stream interceptor made the call with", d, fmt.Sprint(e), want.String())
+				}
+				checked(o, "interceptor_context_decides_"+t.name+"_"+how, id, ok, d)
+			}
+			t.stop()
+		}
 
 		// 6. HTTP unary: the reply (headers with a Content-Length, small and large) stalls in the middle of
 		// its body, then the context ends (cancelled, deadline): the call must return the status, every time
